@@ -60,6 +60,42 @@ CLAIMED = {
         design="6 / C14",
         technique="machine-checked proof in Coq (bit-vector monotonicity, builder invariant) + checked model-code correspondence",
     ),
+    "C04": dict(
+        text="Coq theorems: the merging iterator over any list of sorted children and the database iterator on top of it (hiding entries above the snapshot bound, older versions and deleted keys) refine a cursor over the sorted list of visible user keys, for every finite script of seek_to_first / seek_to_last / seek / next / prev including direction changes, stepping off either end and seeks to keys before, between, equal to and after the stored keys; corollary for the children of any well-formed LSM state. Tied to the code by differential execution of cursor scripts on real databases (itercheck: the implementation's children are dumped, the extracted merging and database iterators are run on them, position by position) and by whole-database histories with scans.",
+        note="Trusted as for C01. Error propagation out of child iterators is not part of the cursor model (see the C15 known finding table-block-error-swallowed-by-iterators).",
+        design="6 / C04",
+        technique="machine-checked proof in Coq (simulation between the iterator state machines and a sorted-list cursor, by induction over scripts) + checked model-code correspondence",
+    ),
+    "C05": dict(
+        text="Coq theorems on a transition system of the read path, the group-commit write path, memtable rotation and the background flush at the granularity of the places where the database mutex is released: for EVERY schedule (any number of threads, any interleaving, any group sizes and rotation choices; fresh thread ids, one background flush at a time) an invariant holds (unique leader at the head of the queue, entries in memory are exactly those of the committed batches plus the in-flight group, every parked reader's captured sources are sound and complete up to its sequence number) and every get returns exactly the map after the batches published when it captured its sequence number (get_linearizable, read_sees_acknowledged, read_ignores_later_writes). The unrepaired read path (memtable pointer loaded after the mutex was released, D6) is refuted in the model by a concrete schedule. Tied to the code by pause-point schedules executed on the real database through cfg(raindb_verif) scheduling points and compared with the extracted transition system and a linearizability oracle.",
+        note="Sequential consistency between the modelled blocks is assumed; interleavings below mutex-release granularity (atomics, ArcSwap, the skip list's internals) are not modelled. Table compactions are not part of this transition system (their invisibility is C07). The correspondence explores schedules with one parked thread plus queued writers.",
+        design="6 / C05",
+        technique="machine-checked proof in Coq (inductive invariant over all interleavings of a transition system; refinement to a sorted map via a ghost commit log) + checked model-code correspondence on pause-point schedules",
+    ),
+    "C06": dict(
+        text="Coq theorems on the same transition system as C05: every published sequence number is a batch boundary of the commit log (published_boundary); for every submitted batch there is a block of sequence numbers such that every published bound lies entirely before or after it, the block holds exactly the batch's entries and all of them are in memory once the bound covers it (batch_all_or_nothing, batch_visible_all_or_none); every acknowledged writer is in the commit log exactly once (writers_exactly_once). Tied to the code by pause-point schedules with a writer parked before the WAL append, between memtable inserts and before publication while readers and scans run, judged for batch atomicity and compared with the extracted model.",
+        note="As for C05. Crash atomicity of batches is C02.",
+        design="6 / C06",
+        technique="machine-checked proof in Coq (inductive invariant over all interleavings) + checked model-code correspondence on pause-point schedules",
+    ),
+    "C02": dict(
+        text="Coq theorems on byte-exact models of the batch codec, the manifest record codec and the write-ahead log: decode(encode x) = x for varints, slices, batches and version changes; for every sequence of writer sessions and EVERY byte length n at which the log is cut, recovery returns exactly a prefix of the appended batches, batch j being recovered iff its record ends at or before n (wal_crash_atomic: batches are all-or-nothing and acknowledged = fully written batches survive), the replayed map and the recovered last sequence number follow. Tied to the code by crash images taken at every filesystem operation (including a torn last write) of real executions on SimFs, recovered by the real DB::open and judged against the extracted specification, plus byte-exact differential execution of the codecs.",
+        note="The file-level protocol around the log (CURRENT switching, manifest append before WAL deletion, file-number reservation) is exercised by the crash suite at every operation of every history but is not yet a theorem; fsync is not modelled because the code never calls it (every completed write is assumed durable).",
+        design="6 / C02",
+        technique="machine-checked proof in Coq (induction over writer sessions and block arithmetic; codec round trips) + checked model-code correspondence on crash images",
+    ),
+    "C15": dict(
+        text="Coq theorems on the byte-exact log model with the real CRC32C: changing any single checksum-protected byte (the 4 checksum bytes or the payload of any fragment) of a log whose last block contains the change is detected: the reader returns the original records in order minus at most (exactly, for well-formed fragment sequences) one, invents and alters nothing and does not panic; crc32c itself is proved to detect every single-byte change; batch-level corollary through WAL recovery. Tied to the code by corrupting every offset of every persistent file (WAL, manifest, CURRENT, tables) of small real databases and judging the reopened database against the written history.",
+        note="Partial: table blocks and the manifest are covered by the correspondence only (block checksum verification is not yet a theorem). Three recorded known findings (table-block-error-swallowed-by-iterators, log-length-beyond-eof, log-type-byte-not-checksummed) and the model witness for the mis-framing after a checksum failure in a non-final block (loses more than one record, still invents nothing).",
+        design="6 / C15",
+        technique="machine-checked proof in Coq (GF(2)-linearity of CRC32C, layout induction) + checked model-code correspondence on corrupted files",
+    ),
+    "C16": dict(
+        text="Coq theorems: a log cut at any byte (torn tail) followed by a NEW log file recovers exactly the batches whose records were complete in the first file followed by all batches of the second (wal_torn_then_new_log, with the cut characterised by record end offsets); appending to a log after a torn tail is refuted in the model (the appended record is lost), which is the repaired defect D2. Tied to the code by crash images with a torn last write (1 byte, half, all but one) of WAL and manifest appends, recovery, further writes and another reopen, with both log-reuse settings.",
+        note="The manifest's torn tail is covered by the correspondence (crash suite) and by the log-level theorem, not by a database-level theorem.",
+        design="6 / C16",
+        technique="machine-checked proof in Coq + checked model-code correspondence on torn crash images",
+    ),
     "C12": dict(
         text="Coq theorems about a byte-exact model of the log writer/reader (round trip over all "
              "record lengths and writer re-openings, truncation at every byte, interruption between "
